@@ -752,7 +752,7 @@ func replayRules(c *Ctx, which string) {
 	ob := c.Obl("R5", "replaydetector.fixedBigInt", "Bit and SetBit ignore positions >= n (guard dominates the word access) and address word i/64, bit i%64", 2)
 	for _, f := range []*ssa.Function{bitF, setF} {
 		n := 0
-		instrsOf(f, func(in ssa.Instruction) {
+		instrsOfU(f, func(in ssa.Instruction) {
 			ia, ok := in.(*ssa.IndexAddr)
 			if !ok || !isFieldLoad(ia.X, "replaydetector.fixedBigInt", bigBits) {
 				return
